@@ -92,6 +92,9 @@ def parse_verb(s):
     m = re.fullmatch(r"Put\((After|Before)\)", s)
     if m:
         return ["Put" + m.group(1)]
+    m = re.fullmatch(r"InsertModeLineBreak\((After|Before)\)", s)
+    if m:
+        return ["OpenLine" + m.group(1)]
     m = re.fullmatch(r"(InsertChar|ReplaceChar)\('(.*)'\)", s, re.S)
     if m:
         return [m.group(1), parse_char(m.group(2))]
@@ -208,6 +211,12 @@ def frame_oracle(verb, lb, done, pre_gs):
             if post == pre[:s] + c[1] + pre[s:]:
                 return None
         return "text after put is not `before` with the register text inserted at one place"
+    if kind in ("OpenLineAfter", "OpenLineBefore"):
+        # o / O add exactly one line terminator, nothing else
+        for s in range(len(pre) + 1):
+            if post == pre[:s] + "\n" + pre[s:]:
+                return None
+        return "o/O did not add exactly one line break"
     if kind == "InsertChar":
         for s in range(len(pre) + 1):
             if post == pre[:s] + verb[1] + pre[s:]:
